@@ -42,7 +42,7 @@ CONSTANTS MaxSeq,      \* number of requests
 
 AllClasses == {"obsTextHeader", "repeatedHeaders", "longUrl", "utf16OddReply", "longNonAsciiErrorReply", "wrongContentType",
             "multibyteCmdline", "multibyteUserName", "clientAbandons", "requesterCancelled", "eventQueueSaturated",
-            "keyKeeperNotified", "targetForms", "connectRefusedByHost", "connectAcceptedByHost", "danglingRuleNames", "plain"}
+            "keyKeeperNotified", "descriptorExhaustion", "targetForms", "connectRefusedByHost", "connectAcceptedByHost", "danglingRuleNames", "plain"}
 
 VARIABLES listener, tasks, req, evq, answered, hist
 svars == <<listener, tasks, req, evq, answered, hist>>
